@@ -48,7 +48,8 @@ INT_TYPES = {
 }
 TYPEDEFS = {}
 RECORDS = {}       # name -> (is_union, [(field, qualType)])
-OPAQUE = {"ufw_source": "Src"}      # structures that are only handed on to external functions
+ENUMS = {}         # enumeration constant -> value
+OPAQUE = {"ufw_source": "Src", "ufw_sink": "Snk"}      # structures that are only handed on to external functions
 
 
 def dq(n):
@@ -107,13 +108,49 @@ def parse(src):
     fns, tables = [], {}
     TYPEDEFS.clear()
     RECORDS.clear()
+    ENUMS.clear()
+
+    def record(n, name):
+        fields = [(f["name"], dq(f)) for f in n.get("inner", []) if f.get("kind") == "FieldDecl"]
+        RECORDS[name] = (n.get("tagUsed") == "union", fields)
+        # a record without a name, defined inside: the field(s) behind it name its type "struct X::(unnamed at ...)"
+        pending = None
+        for c in n.get("inner", []):
+            if c.get("kind") == "RecordDecl" and c.get("completeDefinition"):
+                if c.get("name"):
+                    record(c, c["name"])
+                else:
+                    pending = c
+            elif c.get("kind") == "FieldDecl" and pending is not None:
+                q = dq(c).replace("const ", "").strip()
+                if q.startswith("struct ") or q.startswith("union "):
+                    record(pending, q.split(" ", 1)[1])
+                pending = None
+
+    def enums(n):
+        if n.get("kind") == "EnumDecl":
+            val = -1
+            for c in n.get("inner", []):
+                if c.get("kind") == "EnumConstantDecl":
+                    v = None
+                    for x in c.get("inner", []):
+                        try:
+                            v = const_value(x)
+                        except Unavailable:
+                            pass
+                    val = v if v is not None else val + 1
+                    ENUMS[c["name"]] = val
+        elif n.get("kind") == "RecordDecl":
+            for c in n.get("inner", []):
+                enums(c)
+
     for n in d["inner"]:
         if n.get("kind") == "TypedefDecl":
             t = n.get("type", {})
             TYPEDEFS[n["name"]] = t.get("desugaredQualType", t.get("qualType", ""))
         if n.get("kind") == "RecordDecl" and n.get("name") and n.get("completeDefinition"):
-            RECORDS[n["name"]] = (n.get("tagUsed") == "union",
-                                  [(f["name"], dq(f)) for f in n.get("inner", []) if f.get("kind") == "FieldDecl"])
+            record(n, n["name"])
+        enums(n)
         loc = n.get("loc", {})
         if "includedFrom" in loc or "includedFrom" in loc.get("expansionLoc", {}) or "includedFrom" in loc.get("spellingLoc", {}):
             continue
@@ -132,6 +169,17 @@ def lit_value(e):
     return int(e["value"])
 
 
+def const_value(e):
+    """value of an integer constant expression made of literals and enumeration constants"""
+    while e.get("kind") in ("ConstantExpr", "ImplicitCastExpr", "ParenExpr", "CStyleCastExpr") and "value" not in e:
+        e = e["inner"][0]
+    if "value" in e:
+        return int(e["value"])
+    if e.get("kind") == "DeclRefExpr" and e.get("referencedDecl", {}).get("name") in ENUMS:
+        return ENUMS[e["referencedDecl"]["name"]]
+    raise Unavailable("case label that is not a constant")
+
+
 class Iface:
     """what a caller has to know about a translated (or external) function"""
     def __init__(self, name, ret, comps, needs_undef, needs_fuel=True):
@@ -144,6 +192,10 @@ class Iface:
 EXTERNS = {
     # int source_get_octet(Source *source, void *data)
     "source_get_octet": Iface("source_get_octet", ("int", 32, True), [("opaque", "Src"), ("block", ("int", 8, False), True)], False, needs_fuel=False),
+    # int sink_put_octet(Sink *sink, unsigned char data)
+    "sink_put_octet": Iface("sink_put_octet", ("int", 32, True), [("opaque", "Snk"), ("int", ("int", 8, False))], False, needs_fuel=False),
+    # ssize_t sink_put_chunk(Sink *sink, const void *buf, size_t n)
+    "sink_put_chunk": Iface("sink_put_chunk", ("int", 64, True), [("opaque", "Snk"), ("block", ("int", 8, False), False), ("int", ("int", 64, False))], False, needs_fuel=False),
 }
 
 
@@ -179,6 +231,7 @@ class Fn:
         self.written = set()        # Lean names of blocks / field variables / opaque parameters that are assigned
         self.uses_undef = False
         self.nundef = 0
+        self.break_stack = []
 
     # ------------------------------------------------------------------ bookkeeping
     def fresh(self):
@@ -233,15 +286,13 @@ class Fn:
             return ("mem", b, "(%s + (%s).toNat)" % (i, self.expr(idx)), t)
         if k == "MemberExpr":
             base = e["inner"][0]
+            sp = self.struct_path(e)
+            if sp is not None:
+                fv = self.field(sp[0], sp[1])
+                if fv[0] == "var":
+                    return ("var", fv[1], fv[2])
+                raise Unavailable("pointer field used as a value")
             if e.get("isArrow"):
-                root = base
-                while root.get("kind") in ("ImplicitCastExpr", "ParenExpr"):
-                    root = root["inner"][0]
-                if root.get("kind") == "DeclRefExpr" and root["referencedDecl"]["name"] in self.structs:
-                    fv = self.field(root["referencedDecl"]["name"], e["name"])
-                    if fv[0] == "var":
-                        return ("var", fv[1], fv[2])
-                    raise Unavailable("pointer field used as a value")
                 b, i, t = self.pointer(base)        # pointer to a union: one cell
                 return ("mem", b, i, t)
             root = self.strip_paren(base)
@@ -250,6 +301,45 @@ class Fn:
                 if self.vars[name][0] == "int":
                     return ("var", name, self.vars[name])      # member of a local union: the cell itself
         raise Unavailable("lvalue " + str(k))
+
+    def struct_path(self, e):
+        """(parameter, 'a.b.c') when e is p->a.b.c for a structure pointer parameter p (members of unions inside alias)"""
+        names = []
+        cur = e
+        while cur.get("kind") == "MemberExpr":
+            names.append(cur["name"])
+            if cur.get("isArrow"):
+                root = cur["inner"][0]
+                while root.get("kind") in ("ImplicitCastExpr", "ParenExpr"):
+                    root = root["inner"][0]
+                if root.get("kind") == "DeclRefExpr" and root["referencedDecl"]["name"] in self.structs:
+                    p = root["referencedDecl"]["name"]
+                    path = list(reversed(names))
+                    # cut the path at the first union: its members are one cell
+                    key = self.fieldkey(p, path)
+                    return (p, key)
+                return None
+            cur = self.strip_paren(cur["inner"][0])
+        return None
+
+    def fieldkey(self, p, path):
+        rec = self.structs[p]
+        out = []
+        for name in path:
+            out.append(name)
+            ft = None
+            for f, fq in RECORDS[rec][1]:
+                if f == name:
+                    try:
+                        ft = ctype(fq)
+                    except Unavailable:
+                        ft = None
+            if ft is None or ft[0] != "rec":
+                break
+            if RECORDS[ft[1]][0]:
+                break               # a union: stop here, whatever member follows
+            rec = ft[1]
+        return ".".join(out)
 
     def pointer(self, e):
         """(block, index term, elem type) of a pointer-valued expression"""
@@ -277,12 +367,10 @@ class Fn:
             if name in self.mem:
                 return self.mem[name], name, self.vars[name][1]
             raise Unavailable("pointer " + name)
-        if k == "MemberExpr" and e.get("isArrow"):
-            root = e["inner"][0]
-            while root.get("kind") in ("ImplicitCastExpr", "ParenExpr"):
-                root = root["inner"][0]
-            if root.get("kind") == "DeclRefExpr" and root["referencedDecl"]["name"] in self.structs:
-                fv = self.field(root["referencedDecl"]["name"], e["name"])
+        if k == "MemberExpr":
+            sp = self.struct_path(e)
+            if sp is not None:
+                fv = self.field(sp[0], sp[1])
                 if fv[0] == "blk":
                     return fv[1], "0", fv[2]
             raise Unavailable("pointer member")
@@ -342,6 +430,22 @@ class Fn:
             if ck == "IntegralToBoolean":
                 return "(b2bv8 (%s ≠ 0))" % self.expr(inner)
             raise Unavailable("cast " + str(ck))
+        if k == "DeclRefExpr" and e.get("referencedDecl", {}).get("kind") == "EnumConstantDecl":
+            t = ctype(dq(e))
+            name = e["referencedDecl"]["name"]
+            if name not in ENUMS:
+                raise Unavailable("enumeration constant " + name)
+            return "(%d#%d)" % (ENUMS[name] % (1 << t[1]), t[1])
+        if k == "ConstantExpr":
+            return self.expr(e["inner"][0])
+        if k == "UnaryExprOrTypeTraitExpr":
+            if e.get("name") != "sizeof":
+                raise Unavailable(e.get("name", "type trait"))
+            at = e.get("argType") or (e["inner"][0].get("type") if e.get("inner") else None)
+            if not at:
+                raise Unavailable("sizeof")
+            t = ctype(dq(e))
+            return "(%d#%d)" % (self.sizeof(at.get("desugaredQualType", at.get("qualType", ""))), t[1])
         if self.is_lvalue(e):
             return self.read(self.lvalue(e))
         if k == "UnaryOperator":
@@ -365,7 +469,7 @@ class Fn:
                 if b1 != b2:
                     raise Unavailable("difference of pointers into different blocks")
                 return "(ptrdiff %d %s %s)" % (t[1], i1, i2)
-            if op in ("+", "-", "*", "&", "|", "^", "<<", ">>"):
+            if op in ("+", "-", "*", "&", "|", "^", "<<", ">>", "/", "%"):
                 return self.binop(op, t, self.expr(l), self.expr(r))
             if op in ("<", ">", "<=", ">=", "==", "!=", "&&", "||"):
                 return "(b2bv32 %s)" % self.cond(e)
@@ -380,9 +484,23 @@ class Fn:
             return v
         raise Unavailable("expression " + str(k))
 
+    def sizeof(self, q):
+        q = q.replace("const ", "").strip()
+        if q.endswith("]"):
+            base, n = q[:q.rindex("[")].strip(), int(q[q.rindex("[") + 1:-1])
+            return n * self.sizeof(base)
+        t = ctype(q)
+        if t[0] == "int":
+            return t[1] // 8
+        if t[0] == "ptr":
+            return 8
+        raise Unavailable("sizeof " + q)
+
     def is_lvalue(self, e):
         e = self.strip_paren(e)
         k = e.get("kind")
+        if k == "DeclRefExpr" and e.get("referencedDecl", {}).get("kind") == "EnumConstantDecl":
+            return False
         return k in ("DeclRefExpr", "ArraySubscriptExpr", "MemberExpr") or (k == "UnaryOperator" and e.get("opcode") == "*")
 
     def cond(self, e):
@@ -526,6 +644,10 @@ class Fn:
         if op in ("+", "-", "*", "&", "|", "^"):
             lo = {"+": "+", "-": "-", "*": "*", "&": "&&&", "|": "|||", "^": "^^^"}[op]
             return "(%s %s %s)" % (lhs, lo, rhs)
+        if op in ("/", "%"):
+            if ct[2]:
+                return "(BitVec.%s %s %s)" % ("sdiv" if op == "/" else "srem", lhs, rhs)
+            return "(%s %s %s)" % (lhs, op, rhs)
         raise Unavailable("operator " + op)
 
     def simple(self, s, pad):
@@ -581,7 +703,7 @@ class Fn:
             ct = ctype(crt.get("desugaredQualType", crt.get("qualType", dq(s))))
             rt = ctype(dq(s["inner"][1]))
             lhs = self.cast(self.read(lv), t, ct)
-            val = self.binop(op, ct, lhs, rhs if op in ("<<", ">>") else self.cast(rhs, rt, ct))
+            val = self.binop(op, ct, lhs, rhs if op in ("<<", ">>") else self.cast(rhs, rt, ct))     # incl. /= and %=
             return self.assign(pad, lv, self.cast(val, ct, t))
         if k == "UnaryOperator" and s["opcode"] in ("++", "--"):
             lv = self.lvalue(s["inner"][0])
@@ -678,6 +800,16 @@ class Fn:
                 self.vars, self.mem = dict(saved[0]), dict(saved[1])
                 return self.stmts(rest, i2, end)
             self.forbid_jumps(body)
+            depth = len(self.break_stack)
+
+            def brk(i2):
+                stack = self.break_stack
+                self.break_stack = self.break_stack[:depth]
+                try:
+                    return leave(i2)
+                finally:
+                    self.break_stack = stack
+            self.break_stack.append(brk)
             if cnd and cnd.get("kind"):
                 c = self.cond(cnd)
                 cpre = self.flush("    ")
@@ -688,19 +820,130 @@ class Fn:
                 text = self.stmts([body], 2, body_end)
                 del self.scope[nscope:]
                 self.vars, self.mem = dict(saved[0]), dict(saved[1])
+            del self.break_stack[depth:]
             self.loops.append((lname, params, text))
             del self.scope[mark:]
             self.vars, self.mem = dict(saved[0]), dict(saved[1])
             return "%s%s%s fuel %s" % (pre, pad, lname, " ".join(params))
-        if k in ("ContinueStmt", "BreakStmt", "GotoStmt", "SwitchStmt", "DoStmt", "LabelStmt"):
+        if k == "BreakStmt":
+            if not self.break_stack or self.break_stack[-1] is None:
+                raise Unavailable("break")
+            # what follows the break is translated here and now; the statements still to come (the other branch of an
+            # enclosing if, the next label group) must find the variables as they are at this point
+            snap = (dict(self.vars), dict(self.mem), list(self.scope))
+            try:
+                return self.break_stack[-1](ind)
+            finally:
+                self.vars, self.mem, self.scope = snap
+        if k == "DoStmt":
+            body, cnd = s["inner"][0], s["inner"][1]
+            c = cnd
+            while c.get("kind") in ("ImplicitCastExpr", "ParenExpr"):
+                c = c["inner"][0]
+            if c.get("kind") != "IntegerLiteral" or int(c["value"]) != 0:
+                raise Unavailable("do-while with a condition")
+            # the body once, then what follows; a break inside would leave the do-while: not supported
+            depth = len(self.break_stack)
+            self.break_stack.append(None)
+            mark = len(self.scope)
+
+            def after_do(i2):
+                stack = self.break_stack
+                self.break_stack = self.break_stack[:depth]
+                try:
+                    del self.scope[mark:]
+                    return self.stmts(rest, i2, end)
+                finally:
+                    self.break_stack = stack
+            try:
+                return self.stmts([body], ind, after_do)
+            finally:
+                del self.break_stack[depth:]
+        if k == "SwitchStmt":
+            return self.switch(s, rest, ind, end)
+        if k in ("ContinueStmt", "GotoStmt", "LabelStmt"):
             raise Unavailable(k)
         t = self.simple(s, pad)
         if t is None:
             raise Unavailable("statement " + str(k))
         return t + self.stmts(rest, ind, end)
 
+    def switch(self, s, rest, ind, end):
+        """a switch as an if-chain over its label groups; a group that does not end in break / return runs on into the next"""
+        pad = "  " * ind
+        cond, body = s["inner"][0], s["inner"][1]
+        if body.get("kind") != "CompoundStmt":
+            raise Unavailable("switch without a block")
+        ct = ctype(dq(cond))
+        v = self.expr(cond)
+        pre = self.flush(pad)
+        sv = self.fresh()
+        pre += "%slet %s := %s\n" % (pad, sv, v)
+        groups = []          # (values or None for default, [statements])
+        for c in body.get("inner", []):
+            labels = []
+            cur = c
+            while cur.get("kind") in ("CaseStmt", "DefaultStmt"):
+                if cur["kind"] == "CaseStmt":
+                    labels.append(const_value(cur["inner"][0]))
+                    cur = cur["inner"][-1]
+                else:
+                    labels.append(None)
+                    cur = cur["inner"][-1]
+            if labels:
+                groups.append((labels, [cur]))
+            else:
+                if not groups:
+                    raise Unavailable("statement in front of the first case label")
+                groups[-1][1].append(c)
+        mark = len(self.scope)
+        saved = (dict(self.vars), dict(self.mem))
+        depth = len(self.break_stack)
+
+        def after(i2):
+            stack = self.break_stack
+            self.break_stack = self.break_stack[:depth]
+            try:
+                del self.scope[mark:]
+                self.vars, self.mem = dict(saved[0]), dict(saved[1])
+                return self.stmts(rest, i2, end)
+            finally:
+                self.break_stack = stack
+        self.break_stack.append(after)
+
+        def group(i, i2):
+            if i >= len(groups):
+                return after(i2)
+            return self.stmts(list(groups[i][1]), i2, lambda i3: group(i + 1, i3))
+        try:
+            chain = []
+            default = None
+            for gi, (labels, _) in enumerate(groups):
+                vals = [x for x in labels if x is not None]
+                if None in labels:
+                    default = gi
+                if vals:
+                    c = " ∨ ".join("%s = (%d#%d)" % (sv, x % (1 << ct[1]), ct[1]) for x in vals)
+                    chain.append((c, gi))
+            out = pre
+            cur_ind = ind
+            entry = (dict(self.vars), dict(self.mem), list(self.scope))
+
+            def fresh_group(gi, i2):
+                self.vars, self.mem, self.scope = dict(entry[0]), dict(entry[1]), list(entry[2])
+                return group(gi, i2)
+            for c, gi in chain:
+                p2 = "  " * cur_ind
+                out += "%sif (%s) then\n%s\n%selse\n" % (p2, c, fresh_group(gi, cur_ind + 1), p2)
+                cur_ind += 1
+            self.vars, self.mem, self.scope = dict(entry[0]), dict(entry[1]), list(entry[2])
+            out += group(default, cur_ind) if default is not None else after(cur_ind)
+            return out
+        finally:
+            del self.break_stack[depth:]
+
     def forbid_jumps(self, n):
-        if n.get("kind") in ("ContinueStmt", "BreakStmt", "GotoStmt", "SwitchStmt", "DoStmt"):
+        if n.get("kind") in ("ContinueStmt", "GotoStmt"):
             raise Unavailable(n["kind"] + " in a loop")
         for c in n.get("inner", []):
             self.forbid_jumps(c)
@@ -724,20 +967,17 @@ class Fn:
                 self.structs[n] = rec
                 used = None if not self.known else self.known["fields"].get(n, [])
                 fl = []
-                for f, fq in RECORDS[rec][1]:
+                for f, ft in self.flat_fields(rec, ""):
                     if used is not None and f not in used:
                         continue
-                    try:
-                        ft = ctype(fq)
-                    except Unavailable:
-                        continue
+                    lean = "%s_%s" % (n, f.replace(".", "_"))
                     if ft[0] == "int":
-                        sig.append("(%s_%s : %s)" % (n, f, bv(ft)))
-                        self.fieldvar[(n, f)] = ("var", "%s_%s" % (n, f), ft)
-                        self.declare("%s_%s" % (n, f), ft)
-                        fl.append((f, ("int", ft, ("%s_%s" % (n, f)) in written)))
+                        sig.append("(%s : %s)" % (lean, bv(ft)))
+                        self.fieldvar[(n, f)] = ("var", lean, ft)
+                        self.declare(lean, ft)
+                        fl.append((f, ("int", ft, lean in written)))
                     elif ft[0] == "ptr" and ft[1][0] == "int":
-                        blk = "%s_%s_mem" % (n, f)
+                        blk = lean + "_mem"
                         sig.append("(%s : List (%s))" % (blk, bv(ft[1])))
                         self.blocks[blk] = ft[1]
                         self.fieldvar[(n, f)] = ("blk", blk, ft[1])
@@ -757,6 +997,28 @@ class Fn:
                 raise Unavailable("parameter of type " + t[0])
         return sig, lets, comps
 
+    def flat_fields(self, rec, prefix):
+        """[(path, type)] of the scalar / pointer leaves of a record, nested structures flattened, unions as one cell"""
+        out = []
+        for f, fq in RECORDS[rec][1]:
+            try:
+                ft = ctype(fq)
+            except Unavailable:
+                continue
+            if ft[0] == "rec":
+                if RECORDS[ft[1]][0]:
+                    try:
+                        out.append((prefix + f, union_cell(ft[1])))
+                    except Unavailable:
+                        pass
+                else:
+                    out += self.flat_fields(ft[1], prefix + f + ".")
+            elif ft[0] == "int":
+                out.append((prefix + f, ft))
+            elif ft[0] == "ptr" and ft[1][0] == "int":
+                out.append((prefix + f, ft))
+        return out
+
     def output_names(self):
         """Lean names of what the function hands back next to its value, in parameter order"""
         written = self.known["written"] if self.known else set()
@@ -765,7 +1027,7 @@ class Fn:
             if n in self.opaques:
                 out.append(n)
             elif n in self.structs:
-                for f, fq in RECORDS[self.structs[n]][1]:
+                for f, ft in self.flat_fields(self.structs[n], ""):
                     fv = self.fieldvar.get((n, f))
                     if fv and fv[1] in written:
                         out.append(fv[1])
@@ -826,8 +1088,27 @@ class Fn:
         return "\n\n".join(out)
 
 
+LEAN_WORDS = {"meta", "end", "from", "at", "fun", "open", "local", "show", "have", "this", "private", "instance", "class", "structure",
+              "theorem", "def", "let", "in", "do", "then", "match", "with", "where", "namespace", "section", "variable", "universe", "import",
+              "by", "calc", "exact", "Type", "Prop", "Sort", "mutual", "macro", "syntax", "notation", "deriving", "extends", "abbrev",
+              "example", "axiom", "opaque", "partial", "unsafe", "protected", "noncomputable", "attribute", "export", "using", "suffices",
+              "obtain", "rcases", "fuel", "undef", "Res", "load", "store", "zx", "sx", "tr"}
+
+
+def rename_words(n):
+    """C identifiers that are words of Lean (or of the prelude) get an underscore appended, everywhere in the function"""
+    if n.get("kind") in ("ParmVarDecl", "VarDecl") and n.get("name") in LEAN_WORDS:
+        n["name"] = n["name"] + "_"
+    rd = n.get("referencedDecl")
+    if rd and rd.get("kind") in ("ParmVarDecl", "VarDecl") and rd.get("name") in LEAN_WORDS:
+        rd["name"] = rd["name"] + "_"
+    for c in n.get("inner", []):
+        rename_words(c)
+
+
 def translate_fn(node, unit):
     """passes to a fixed point: the first finds out which fields are used and what is written, the last writes the text"""
+    rename_words(node)
     f1 = Fn(node, unit, None)
     f1.lean()
     known = {"fields": {p: sorted(fs) for p, fs in f1.used_fields.items()}, "written": set(f1.written), "undef": f1.uses_undef}
@@ -866,20 +1147,26 @@ class Unit:
 
     def translate(self):
         status, texts, order = {}, {}, []
-        for node in self.fn_nodes:
-            name = node["name"]
-            if self.want is not None and name not in self.want:
-                continue
-            order.append(name)
-            try:
-                f, text = translate_fn(node, self)
-                texts[name] = text
-                self.ifaces[name] = f.iface        # functions further down may call this one
-                status[name] = "translated"
-            except Unavailable as e:
-                status[name] = "unavailable(%s)" % e
-            except (KeyError, IndexError, ValueError, TypeError) as e:
-                status[name] = "unavailable(translator: %r)" % (e,)
+        todo = [n for n in self.fn_nodes if self.want is None or n["name"] in self.want]
+        progress = True
+        while progress:
+            # a function may call one that is defined further down: go round until nothing new comes out
+            progress = False
+            for node in todo:
+                name = node["name"]
+                if status.get(name) == "translated":
+                    continue
+                try:
+                    f, text = translate_fn(node, self)
+                    texts[name] = text
+                    self.ifaces[name] = f.iface
+                    status[name] = "translated"
+                    order.append(name)              # definitions come out in dependency order
+                    progress = True
+                except Unavailable as e:
+                    status[name] = "unavailable(%s)" % e
+                except (KeyError, IndexError, ValueError, TypeError) as e:
+                    status[name] = "unavailable(translator: %r)" % (e,)
         for w in (self.want or []):
             status.setdefault(w, "unavailable(no such function in %s)" % self.src)
         defs = [self.table_text(t) for t in sorted(self.used_tables)]
@@ -960,9 +1247,61 @@ def varint_tie_modules():
     return ["Ufw.Tie.VarintLoops.Common"] + [m for f, m in VARINT_TIE.items() if VARINT_STATUS.get(f) == "translated"]
 
 
+# ---------------------------------------------------------------------------------------------------------------
+# src/register-protocol.c: the helper functions without loops
+# ---------------------------------------------------------------------------------------------------------------
+
+REGP_SRC = "src/register-protocol.c"
+REGP_TIE = {
+    "payload_plausible": "Ufw.Tie.RegpFns.PayloadPlausible", "req2resp": "Ufw.Tie.RegpFns.Req2resp", "msem_size": "Ufw.Tie.RegpFns.MsemSize",
+    "memtype_valid": "Ufw.Tie.RegpFns.MemtypeValid", "raw_with_hdcrc": "Ufw.Tie.RegpFns.RawWithHdcrc", "raw_with_plcrc": "Ufw.Tie.RegpFns.RawWithPlcrc",
+}
+REGP_WANT = list(REGP_TIE) + ["make_motv", "regp_is_16bitsem", "regp_has_hdcrc", "regp_has_plcrc", "address_min", "address_max"]
+REGP_STATUS = {}
+
+
+def regp_gen():
+    u = Unit(REGP_SRC, REGP_WANT)
+    status, defs = u.translate()
+    write("RegpFns", REGP_SRC, defs)
+    REGP_STATUS.clear()
+    REGP_STATUS.update(status)
+    return {"cloops:" + k: v for k, v in status.items()}
+
+
+def regp_tie_modules():
+    return ["Ufw.Tie.RegpFns.Common"] + [m for f, m in REGP_TIE.items() if REGP_STATUS.get(f) == "translated"]
+
+
+# ---------------------------------------------------------------------------------------------------------------
+# src/rfc1055.c
+# ---------------------------------------------------------------------------------------------------------------
+
+SLIP_SRC = "src/rfc1055.c"
+SLIP_TIE = {
+    "rfc1055_context_init": "Ufw.Tie.SlipFns.ContextInit", "rfc1055_encode": "Ufw.Tie.SlipFns.Encode",
+}
+SLIP_WANT = ["rfc1055_context_init", "rfc1055_open", "rfc1055_close", "rfc1055_encode_octet", "rfc1055_decode_octet", "rfc1055_encode",
+             "transition", "rfc1055_decode"]
+SLIP_STATUS = {}
+
+
+def slip_gen():
+    u = Unit(SLIP_SRC, SLIP_WANT)
+    status, defs = u.translate()
+    write("SlipFns", SLIP_SRC, defs)
+    SLIP_STATUS.clear()
+    SLIP_STATUS.update(status)
+    return {"cloops:" + k: v for k, v in status.items()}
+
+
+def slip_tie_modules():
+    return ["Ufw.Tie.SlipFns.Common"] + [m for f, m in SLIP_TIE.items() if SLIP_STATUS.get(f) == "translated"]
+
+
 if __name__ == "__main__":
     which = sys.argv[1] if len(sys.argv) > 1 else "crc"
-    st = crc_gen() if which == "crc" else varint_gen()
+    st = {"crc": crc_gen, "varint": varint_gen, "regp": regp_gen, "slip": slip_gen}[which]()
     for k, v in st.items():
         print(k, v)
-    print(open(os.path.join(vf.LEAN, "Ufw/Gen/%s.lean" % ("CrcLoops" if which == "crc" else "VarintLoops"))).read()[-9000:])
+    print(open(os.path.join(vf.LEAN, "Ufw/Gen/%s.lean" % {"crc": "CrcLoops", "varint": "VarintLoops", "regp": "RegpFns", "slip": "SlipFns"}[which])).read()[-9000:])
